@@ -241,8 +241,8 @@ def render_cases(draw):
                     parts.append(["data", draw(st.sampled_from(pgstrat.DATA_KEYS))])
                 else:
                     parts.append(["dflt"])
-            if kind == "str" and not any(p[0] == "text" for p in parts):
-                parts.append(["text", "r%d" % (n + 1)])
+            if kind == "str" and not any(p[0] == "text" for p in parts) and draw(st.integers(0, 99)) < 60:
+                parts.append(["text", "r%d" % (n + 1)])  # otherwise: the empty string (an empty fill is still a fill)
             chosen[s] = {"kind": kind, "parts": parts}
     kwargs = {p: draw(st.sampled_from(pgstrat.VALUES)) for p in spec["params"] if draw(st.booleans())}
     return {"kind": "render", "program": prog, "target": spec["name"], "kwargs": kwargs, "slots": chosen}
